@@ -36,6 +36,12 @@ type Case struct {
 	// expectations as for the newest file); 2: the next run has the default linear order and finds a newer pending file as
 	// well: it must be refused whatever the edit, with nothing executed and the revisions as they were.
 	OutOfOrder int `json:"out_of_order,omitempty"`
+	// Trigger (CLI tier): the file starts with a CREATE TRIGGER ... BEGIN ...; END; statement (part of what was applied): the
+	// SQLite scanner keeps it in one piece, a generic one splits it at the inner semicolon
+	Trigger bool `json:"trigger,omitempty"`
+	// DryFirst (CLI tier): the run after the edit is first made with --dry-run: it must reach the same verdict as the real
+	// run that follows and change nothing
+	DryFirst bool `json:"dry_first,omitempty"`
 }
 
 func stmtText(id int) string { return fmt.Sprintf("INSERT INTO journal (id) VALUES (%d);", id) }
@@ -267,7 +273,11 @@ func checkCLI(c Case) error {
 	}
 	defer sb.Close()
 	// In the CLI tier the statement at index K of the old file is a really failing statement.
-	old := render(c.Old[:c.K], 0) + failingStmt + "\n" + render(c.Old[c.K+1:], 0)
+	prefix, extra := "", 0
+	if c.Trigger {
+		prefix, extra = "CREATE TRIGGER IF NOT EXISTS trg_journal AFTER INSERT ON journal BEGIN SELECT 1; SELECT 2; END;\n", 1
+	}
+	old := prefix + render(c.Old[:c.K], 0) + failingStmt + "\n" + render(c.Old[c.K+1:], 0)
 	sb.WriteFile("m/0_init.sql", "CREATE TABLE journal (id integer);\n")
 	url := "sqlite://" + sb.Path("db.sqlite")
 	var order1, order2 []string
@@ -296,10 +306,10 @@ func checkCLI(c Case) error {
 	if err != nil {
 		return fmt.Errorf("harness: %v", err)
 	}
-	if before["1"].Applied != c.K || !reflect.DeepEqual(ids, c.Old[:c.K]) {
-		return fmt.Errorf("first attempt: revision %+v journal %v, want %d applied", before["1"], ids, c.K)
+	if before["1"].Applied != c.K+extra || !reflect.DeepEqual(ids, c.Old[:c.K]) {
+		return fmt.Errorf("first attempt: revision %+v journal %v, want %d applied", before["1"], ids, c.K+extra)
 	}
-	sb.WriteFile("m/1_a.sql", render(c.New, c.Cosmetic))
+	sb.WriteFile("m/1_a.sql", prefix+render(c.New, c.Cosmetic))
 	if r := sb.Run("migrate", "hash", "--dir", "file://m"); r.Code != 0 {
 		return fmt.Errorf("harness: %v", r)
 	}
@@ -307,6 +317,22 @@ func checkCLI(c Case) error {
 		sb.WriteFile("m/3_c.sql", "INSERT INTO journal (id) VALUES (999);\n")
 		if r := sb.Run("migrate", "hash", "--dir", "file://m"); r.Code != 0 {
 			return fmt.Errorf("harness: %v", r)
+		}
+	}
+	if c.DryFirst && c.OutOfOrder != 2 {
+		rd := sb.Run(append([]string{"migrate", "apply", "--dir", "file://m", "--url", url, "--tx-mode", "none", "--dry-run"}, order2...)...)
+		afterDry, idsDry, err := readRevs(sb.Path("db.sqlite"))
+		if err != nil {
+			return fmt.Errorf("harness: %v", err)
+		}
+		if !reflect.DeepEqual(before, afterDry) || !reflect.DeepEqual(ids, idsDry) {
+			return fmt.Errorf("--dry-run changed the database: revisions %+v -> %+v, journal %v -> %v", before, afterDry, ids, idsDry)
+		}
+		switch {
+		case c.prefixUnchanged() && rd.Code != 0:
+			return fmt.Errorf("applied prefix unchanged: the real run resumes, but the same command with --dry-run refuses: %v", rd)
+		case !c.prefixUnchanged() && (rd.Code == 0 || !strings.Contains(rd.Stderr+rd.Stdout, "history changed")):
+			return fmt.Errorf("applied prefix changed: --dry-run does not report it: %v", rd)
 		}
 	}
 	r2 := sb.Run(append([]string{"migrate", "apply", "--dir", "file://m", "--url", url, "--tx-mode", "none"}, order2...)...)
@@ -338,7 +364,7 @@ func checkCLI(c Case) error {
 		if !reflect.DeepEqual(ids2, want) && !(len(ids2) == 0 && len(want) == 0) {
 			return fmt.Errorf("journal after resume %v, want %v", ids2, want)
 		}
-		if after["1"].Applied != len(c.New) || (len(c.New) > c.K && after["1"].Error != "") {
+		if after["1"].Applied != len(c.New)+extra || (len(c.New) > c.K && after["1"].Error != "") {
 			return fmt.Errorf("after resume: revision %+v", after["1"])
 		}
 		return nil
